@@ -33,6 +33,17 @@ type c10Variant struct {
 	Place  int      `json:"place"` // line of the base's directive file the comment is put above; 0: first line of the file; -1: after the package clause
 	Names  []string `json:"names,omitempty"`
 	Reason bool     `json:"reason"`
+	// Second, if set, adds a second directive to a line directive (Kind "ignore", Place > 0).
+	Second *c10Second `json:"second,omitempty"`
+}
+
+// c10Second is the second directive of a two-directive variant.
+type c10Second struct {
+	// file-top: //lint:file-ignore as the first line of the file;
+	// above / below: a //lint:ignore stacked directly above / below the first one (same statement).
+	How    string   `json:"how"`
+	Names  []string `json:"names"`
+	Reason bool     `json:"reason"`
 }
 
 func (v c10Variant) key() string {
@@ -43,7 +54,15 @@ func (v c10Variant) key() string {
 	if v.Kind == "base" || v.Kind == "comment" {
 		return fmt.Sprintf("%s/%s@%d", v.Base, v.Kind, v.Place)
 	}
-	return fmt.Sprintf("%s/%s@%d/%s/%s", v.Base, v.Kind, v.Place, strings.Join(v.Names, ","), r)
+	k := fmt.Sprintf("%s/%s@%d/%s/%s", v.Base, v.Kind, v.Place, strings.Join(v.Names, ","), r)
+	if v.Second != nil {
+		r2 := "reason"
+		if !v.Second.Reason {
+			r2 = "noreason"
+		}
+		k += fmt.Sprintf("+%s:%s/%s", v.Second.How, strings.Join(v.Second.Names, ","), r2)
+	}
+	return k
 }
 
 func (v c10Variant) text() string {
@@ -60,42 +79,103 @@ func (v c10Variant) text() string {
 	return s
 }
 
-// layout describes where the comment of a variant ends up.
-type c10Layout struct {
-	from, shift int // lines >= from of the directive file move down by shift
-	dirLine     int // line of the comment itself (new numbering)
-	attached    int // line of the code the comment is attached to (new numbering)
+func (v c10Variant) secondText() string {
+	k := "ignore"
+	if v.Second.How == "file-top" {
+		k = "file-ignore"
+	}
+	s := "//lint:" + k + " " + strings.Join(v.Second.Names, ",")
+	if v.Second.Reason {
+		s += " also needed for the test"
+	}
+	return s
 }
 
-func (v c10Variant) layout() c10Layout {
+// c10Dir is one comment of a variant after it has been placed.
+type c10Dir struct {
+	kind     string // ignore | file-ignore | trailing
+	names    []string
+	reason   bool
+	dirLine  int // line of the comment itself (new numbering)
+	attached int // line of the code the comment is attached to (new numbering)
+	orig     int // the same line in the base's numbering
+}
+
+// plan returns the comments of the variant and the line renumbering of the directive file.
+func (v c10Variant) plan() (dirs []c10Dir, mapLine func(int) int) {
+	shiftFrom := func(from, shift int) func(int) int {
+		return func(l int) int {
+			if l >= from {
+				return l + shift
+			}
+			return l
+		}
+	}
+	if v.Second != nil {
+		s := v.Second
+		switch s.How {
+		case "file-top":
+			// line 1: file directive, line 2: blank, then the file with the line directive above Place
+			return []c10Dir{
+				{kind: "ignore", names: v.Names, reason: v.Reason, dirLine: v.Place + 2, attached: v.Place + 3, orig: v.Place},
+				{kind: "file-ignore", names: s.Names, reason: s.Reason, dirLine: 1, attached: 3, orig: 1},
+			}, func(l int) int { return shiftFrom(v.Place, 1)(l) + 2 }
+		case "above":
+			return []c10Dir{
+				{kind: "ignore", names: v.Names, reason: v.Reason, dirLine: v.Place + 1, attached: v.Place + 2, orig: v.Place},
+				{kind: "ignore", names: s.Names, reason: s.Reason, dirLine: v.Place, attached: v.Place + 2, orig: v.Place},
+			}, shiftFrom(v.Place, 2)
+		default: // below
+			return []c10Dir{
+				{kind: "ignore", names: v.Names, reason: v.Reason, dirLine: v.Place, attached: v.Place + 2, orig: v.Place},
+				{kind: "ignore", names: s.Names, reason: s.Reason, dirLine: v.Place + 1, attached: v.Place + 2, orig: v.Place},
+			}, shiftFrom(v.Place, 2)
+		}
+	}
 	switch {
 	case v.Kind == "base":
-		return c10Layout{from: 1 << 30}
+		return nil, shiftFrom(1<<30, 0)
 	case v.Kind == "trailing":
-		return c10Layout{from: 1 << 30, dirLine: v.Place, attached: v.Place}
+		return []c10Dir{{kind: "trailing", names: v.Names, reason: true, dirLine: v.Place, attached: v.Place, orig: v.Place}}, shiftFrom(1<<30, 0)
 	case v.Place == 0:
-		return c10Layout{from: 1, shift: 2, dirLine: 1, attached: 3}
+		return []c10Dir{{kind: v.Kind, names: v.Names, reason: v.Reason, dirLine: 1, attached: 3, orig: 1}}, shiftFrom(1, 2)
 	case v.Place == -1:
-		return c10Layout{from: 3, shift: 2, dirLine: 3, attached: 5}
+		return []c10Dir{{kind: v.Kind, names: v.Names, reason: v.Reason, dirLine: 3, attached: 5, orig: 3}}, shiftFrom(3, 2)
 	}
-	return c10Layout{from: v.Place, shift: 1, dirLine: v.Place, attached: v.Place + 1}
+	return []c10Dir{{kind: v.Kind, names: v.Names, reason: v.Reason, dirLine: v.Place, attached: v.Place + 1, orig: v.Place}}, shiftFrom(v.Place, 1)
 }
 
 // render returns the directive file of the variant (still with "§" placeholders).
 func (v c10Variant) render(b *c10Base) string {
 	lines := append([]string(nil), b.dirLines...)
+	insert := func(at int, add ...string) { // before 1-based line at
+		lines = append(append(append([]string(nil), lines[:at-1]...), add...), lines[at-1:]...)
+	}
+	indentOf := func(l int) string {
+		cur := lines[l-1]
+		return cur[:len(cur)-len(strings.TrimLeft(cur, "\t"))]
+	}
 	switch {
 	case v.Kind == "base":
 	case v.Kind == "trailing":
 		lines[v.Place-1] += " " + v.text()
+	case v.Second != nil:
+		in := indentOf(v.Place)
+		switch v.Second.How {
+		case "file-top":
+			insert(v.Place, in+v.text())
+			insert(1, v.secondText(), "")
+		case "above":
+			insert(v.Place, in+v.secondText(), in+v.text())
+		default:
+			insert(v.Place, in+v.text(), in+v.secondText())
+		}
 	case v.Place == 0:
-		lines = append([]string{v.text(), ""}, lines...)
+		insert(1, v.text(), "")
 	case v.Place == -1:
-		lines = append(append(append([]string(nil), lines[:2]...), v.text(), ""), lines[2:]...)
+		insert(3, v.text(), "")
 	default:
-		cur := lines[v.Place-1]
-		indent := cur[:len(cur)-len(strings.TrimLeft(cur, "\t"))]
-		lines = append(append(append([]string(nil), lines[:v.Place-1]...), indent+v.text()), lines[v.Place-1:]...)
+		insert(v.Place, indentOf(v.Place)+v.text())
 	}
 	return strings.Join(lines, "\n")
 }
@@ -153,107 +233,142 @@ const (
 
 // c10Expect is the model's answer for one (variant, -show-ignored) pair.
 type c10Expect struct {
-	Alts       [][]string // acceptable reports (sorted); real must equal one of them
-	Unmatched  int        // c10Must / c10MustNot / c10Either for the "didn't match anything" problem
-	Suppressed int        // problems the directive must suppress (first alternative)
-	MaybeU1000 bool       // U1000 named only by a wrong-case name: either answer accepted
-	CatDiffers int        // problems for which the category reading of S* would answer differently
-	Decided    int
-	Scope      []c10Prob // base problems (new numbering) in the directive's scope
-	Moved      []c10Prob // all base problems in the new numbering
+	Alts        [][]string  // acceptable reports (sorted); real must equal one of them
+	Unmatched   int         // c10Must / c10MustNot / c10Either for the first directive's "didn't match anything" problem
+	UnmatchedBy map[int]int // the same for every line directive, by the line of the comment
+	CoversBy    map[int]int // number of problems each line directive covers on its own, by the line of the comment
+	Suppressed  int         // problems that must be suppressed (first alternative)
+	MaybeU1000  bool        // U1000 named only by a wrong-case name: either answer accepted
+	CatDiffers  int         // problems for which the category reading of S* would answer differently
+	Decided     int
+	Scope       []c10Prob // base problems (new numbering) in the scope of some directive
+	Moved       []c10Prob // all base problems in the new numbering
 }
 
 const c10TokUnmatched = "UNMATCHED-DIRECTIVE"
 const c10TokMalformed = "MALFORMED-DIRECTIVE"
 
+// the token for an unmatched-directive report; two-directive variants say which comment
+func c10UnmatchedTok(v c10Variant, dirLine int) string {
+	if v.Second == nil {
+		return c10TokUnmatched
+	}
+	return fmt.Sprintf("%s@%d", c10TokUnmatched, dirLine)
+}
+
 // c10Model computes the acceptable reports of variant v from the report of its base.
+//
+// A problem is suppressed iff some well-formed directive covers it (same file; attached line or
+// whole file; a name matches the check as a case-insensitive glob), and, for U1000, iff its
+// object is reachable from an object some directive ignores. Every line directive is judged on
+// its own for the "didn't match anything" clause: one that covers at least one problem is never
+// reported, whether or not another directive covers the same problem.
 func c10Model(b *c10Base, ref []c10Prob, v c10Variant, show bool, enabled map[string]bool) c10Expect {
-	var e c10Expect
-	lay := v.layout()
+	e := c10Expect{UnmatchedBy: map[int]int{}, CoversBy: map[int]int{}}
+	dirs, mapLine := v.plan()
 	moved := make([]c10Prob, len(ref))
 	for i, p := range ref {
-		if p.Role == "d" && p.Line >= lay.from {
-			p.Line += lay.shift
+		if p.Role == "d" {
+			p.Line = mapLine(p.Line)
 		}
 		moved[i] = p
 	}
 	e.Decided = len(moved)
 	e.Moved = moved
-	directive := v.Kind == "ignore" || v.Kind == "file-ignore"
-	effective := directive && v.Reason
-	inScope := func(p c10Prob) bool {
+	isDirective := func(d c10Dir) bool { return d.kind == "ignore" || d.kind == "file-ignore" }
+	inScope := func(d c10Dir, p c10Prob) bool {
 		if p.Role != "d" {
 			return false
 		}
-		return v.Kind == "file-ignore" || p.Line == lay.attached
+		return d.kind == "file-ignore" || p.Line == d.attached
 	}
-	for _, p := range moved {
-		if directive && inScope(p) {
-			e.Scope = append(e.Scope, p)
-		}
+	lineInScope := func(d c10Dir, orig int) bool { // orig: line of the base's directive file
+		return d.kind == "file-ignore" || (d.kind == "ignore" && orig == d.orig)
 	}
 	// does the list name U1000? sure: as a glob in the documented spelling; fold: only when case is ignored
-	sureU, foldU := false, false
-	for _, n := range v.Names {
-		if c10Glob(n, "U1000", false) {
-			sureU = true
-		} else if c10Glob(n, "U1000", true) {
-			foldU = true
+	namesU := func(d c10Dir) (sureU, foldU bool) {
+		for _, n := range d.names {
+			if c10Glob(n, "U1000", false) {
+				sureU = true
+			} else if c10Glob(n, "U1000", true) {
+				foldU = true
+			}
+		}
+		return
+	}
+	// own: what directive d covers on its own
+	own := func(d c10Dir, maybe bool) map[int]bool {
+		sup := map[int]bool{}
+		if !isDirective(d) || !d.reason {
+			return sup
+		}
+		usedObj := map[string]bool{}
+		sureU, foldU := namesU(d)
+		nu := sureU || (maybe && foldU)
+		for i, p := range moved {
+			if !inScope(d, p) {
+				continue
+			}
+			hit := false
+			if p.Code == "U1000" {
+				hit = nu
+			} else {
+				for _, n := range d.names {
+					hit = hit || c10Glob(n, p.Code, true)
+				}
+			}
+			if hit {
+				sup[i] = true
+				if p.Code == "U1000" {
+					usedObj[c10ObjName(p)] = true
+				}
+			}
+		}
+		// U1000: an ignored object counts as used, and so does everything reachable from it
+		if nu {
+			for line, objs := range b.LineUses {
+				if lineInScope(d, line) {
+					for _, o := range objs {
+						usedObj[o] = true
+					}
+				}
+			}
+		}
+		for changed := true; changed; {
+			changed = false
+			for o := range usedObj {
+				for _, u := range b.Uses[o] {
+					if !usedObj[u] {
+						usedObj[u] = true
+						changed = true
+					}
+				}
+			}
+		}
+		for i, p := range moved {
+			if p.Code == "U1000" && usedObj[c10ObjName(p)] {
+				sup[i] = true
+			}
+		}
+		return sup
+	}
+	seenScope := map[int]bool{}
+	for _, d := range dirs {
+		if !isDirective(d) {
+			continue
+		}
+		for i, p := range moved {
+			if inScope(d, p) && !seenScope[i] {
+				seenScope[i] = true
+				e.Scope = append(e.Scope, p)
+			}
 		}
 	}
-	lineInScope := func(orig int) bool { // orig: line of the base's directive file
-		return v.Kind == "file-ignore" || (v.Kind == "ignore" && orig == v.Place)
-	}
 	build := func(maybe bool) ([]string, int) {
-		// 1. direct suppression
 		sup := map[int]bool{}
-		usedObj := map[string]bool{}
-		if effective {
-			namesU := sureU || (maybe && foldU)
-			for i, p := range moved {
-				if !inScope(p) {
-					continue
-				}
-				hit := false
-				if p.Code == "U1000" {
-					hit = namesU
-				} else {
-					for _, n := range v.Names {
-						hit = hit || c10Glob(n, p.Code, true)
-					}
-				}
-				if hit {
-					sup[i] = true
-					if p.Code == "U1000" {
-						usedObj[c10ObjName(p)] = true
-					}
-				}
-			}
-			// 2. U1000: an ignored object counts as used, and so does everything reachable from it
-			if namesU {
-				for line, objs := range b.LineUses {
-					if lineInScope(line) {
-						for _, o := range objs {
-							usedObj[o] = true
-						}
-					}
-				}
-			}
-			for changed := true; changed; {
-				changed = false
-				for o := range usedObj {
-					for _, u := range b.Uses[o] {
-						if !usedObj[u] {
-							usedObj[u] = true
-							changed = true
-						}
-					}
-				}
-			}
-			for i, p := range moved {
-				if p.Code == "U1000" && usedObj[c10ObjName(p)] {
-					sup[i] = true
-				}
+		for _, d := range dirs {
+			for i := range own(d, maybe) {
+				sup[i] = true
 			}
 		}
 		var out []string
@@ -267,93 +382,132 @@ func c10Model(b *c10Base, ref []c10Prob, v c10Variant, show bool, enabled map[st
 			}
 			out = append(out, p.String())
 		}
-		if directive && !v.Reason {
-			out = append(out, c10TokMalformed)
+		for _, d := range dirs {
+			if isDirective(d) && !d.reason {
+				out = append(out, c10TokMalformed)
+			}
 		}
 		return out, len(sup)
 	}
 	first, nsup := build(false)
 	e.Suppressed = nsup
-	// wrong-case U1000: does any name match U1000 only when case is folded?
-	if effective {
-		if !sureU && foldU {
-			for _, p := range e.Scope {
-				if p.Code == "U1000" {
-					e.MaybeU1000 = true
+	for di, d := range dirs {
+		if !isDirective(d) {
+			continue
+		}
+		sureU, foldU := namesU(d)
+		maybeU := false
+		if d.reason {
+			// wrong-case U1000: does any name match U1000 only when case is folded?
+			if !sureU && foldU {
+				for _, p := range moved {
+					if inScope(d, p) && p.Code == "U1000" {
+						maybeU = true
+					}
+				}
+				for line := range b.LineUses {
+					if lineInScope(d, line) {
+						maybeU = true
+					}
 				}
 			}
-			for line := range b.LineUses {
-				if lineInScope(line) {
-					e.MaybeU1000 = true
+			for _, p := range moved {
+				if !inScope(d, p) {
+					continue
+				}
+				a, c := false, false
+				for _, n := range d.names {
+					a = a || c10Glob(n, p.Code, true)
+					c = c || c10CategoryGlob(n, p.Code)
+				}
+				if a != c {
+					e.CatDiffers++
 				}
 			}
 		}
-		for _, p := range e.Scope {
-			a, c := false, false
-			for _, n := range v.Names {
-				a = a || c10Glob(n, p.Code, true)
-				c = c || c10CategoryGlob(n, p.Code)
-			}
-			if a != c {
-				e.CatDiffers++
-			}
-		}
-	}
-	// the "this linter directive didn't match anything" clause
-	e.Unmatched = c10MustNot
-	if v.Kind == "ignore" {
-		switch {
-		case !v.Reason:
-			e.Unmatched = c10Either // not a directive at all; the statement only demands the error
-		case e.MaybeU1000:
-			e.Unmatched = c10Either
-		case nsup > 0:
-			e.Unmatched = c10MustNot
-		default:
-			onlyOff, exactOn, anyU := true, false, sureU || foldU
-			for _, n := range v.Names {
-				if n != "U1000" && n != c10Disabled {
-					onlyOff = false
-				}
-				if n != "U1000" && enabled[n] {
-					exactOn = true
-				}
-			}
+		e.MaybeU1000 = e.MaybeU1000 || maybeU
+		// the "this linter directive didn't match anything" clause, per directive
+		um := c10MustNot
+		if d.kind == "ignore" {
+			covers := len(own(d, false))
+			e.CoversBy[d.dirLine] = covers
 			switch {
-			case onlyOff:
-				e.Unmatched = c10MustNot
-			case exactOn && !anyU:
-				e.Unmatched = c10Must
+			case !d.reason:
+				um = c10Either // not a directive at all; the statement only demands the error
+			case maybeU:
+				um = c10Either
+			case covers > 0:
+				um = c10MustNot
 			default:
-				e.Unmatched = c10Either
+				onlyOff, exactOn, anyU := true, false, sureU || foldU
+				for _, n := range d.names {
+					if n != "U1000" && n != c10Disabled {
+						onlyOff = false
+					}
+					if n != "U1000" && enabled[n] {
+						exactOn = true
+					}
+				}
+				switch {
+				case onlyOff:
+					um = c10MustNot
+				case exactOn && !anyU:
+					um = c10Must
+				default:
+					um = c10Either
+				}
+			}
+			e.UnmatchedBy[d.dirLine] = um
+			if um == c10Must {
+				first = append(first, c10UnmatchedTok(v, d.dirLine))
 			}
 		}
-	}
-	if e.Unmatched == c10Must {
-		first = append(first, c10TokUnmatched)
+		if di == 0 {
+			e.Unmatched = um
+		}
 	}
 	sort.Strings(first)
 	e.Alts = [][]string{first}
 	if e.MaybeU1000 {
 		second, _ := build(true)
+		for line, um := range e.UnmatchedBy {
+			if um == c10Must {
+				second = append(second, c10UnmatchedTok(v, line))
+			}
+		}
 		sort.Strings(second)
 		e.Alts = append(e.Alts, second)
 	}
 	return e
 }
 
-// c10Normalise turns the real problems of a slot into the comparable form.
+// c10Normalise turns the real problems of a slot into the comparable form; dropUnmatched removes
+// every unmatched-directive report, c10NormaliseFor only those the model leaves open.
 func c10Normalise(real []c10Prob, v c10Variant, show bool, dropUnmatched bool) []string {
-	lay := v.layout()
+	return c10normalise(real, v, show, func(int) bool { return dropUnmatched })
+}
+
+func c10NormaliseFor(real []c10Prob, v c10Variant, show bool, e c10Expect) []string {
+	return c10normalise(real, v, show, func(line int) bool { return e.UnmatchedBy[line] == c10Either })
+}
+
+func c10normalise(real []c10Prob, v c10Variant, show bool, drop func(dirLine int) bool) []string {
+	dirs, _ := v.plan()
+	lineDir := map[int]bool{}
+	for _, d := range dirs {
+		if d.kind == "ignore" || d.kind == "trailing" {
+			lineDir[d.dirLine] = true
+		}
+	}
 	var out []string
 	for _, p := range real {
 		switch {
 		case p.Code == "compile" && strings.Contains(p.Msg, "malformed linter directive") && p.Role == "d":
 			// reported at the attached node, not at the comment; any line of the file is accepted
 			out = append(out, c10TokMalformed)
-		case p.Code == "staticcheck" && strings.Contains(p.Msg, "didn't match anything") && p.Role == "d" && p.Line == lay.dirLine:
-			if !dropUnmatched {
-				out = append(out, c10TokUnmatched)
+		case p.Code == "staticcheck" && strings.Contains(p.Msg, "didn't match anything") && p.Role == "d" && lineDir[p.Line]:
+			if !drop(p.Line) {
+				out = append(out, c10UnmatchedTok(v, p.Line))
 			}
 		case show && p.Code == "U1000" && p.Sev == "ignored":
 			// an ignored unused object is "used": normally absent; shown as ignored is accepted too
